@@ -4,8 +4,9 @@
    floating-point operation is the exact rational one, every float->int conversion is the
    truncation toward zero; rows minus obstructions come from the C15 model FreeSpace.v.
    All theorems are [F]: proved for every input of the stated domain (cell sizes >= 0, cap >= 0 where
-   said); nothing is bounded or partial.  What the theorems do NOT cover is the rounding of the IEEE
-   operations themselves (see checks/c18.py for how the tie treats it).
+   said); nothing is bounded or partial.  The theorems c18_* of this first part do NOT cover the rounding of
+   the IEEE operations themselves; the second part of this file (theorems c18f_*, model ExpandFloat.v, Flocq
+   binary64/binary32) does: it states what holds for the COMPUTED widths and factors.
    Vocabulary (ExpandProofs.v): frame k k' := k' differs from k at most in its width, and not at all
    when k is fixed; processed k := movable with h > 0 and w > 0 (the cells the density loop acts on);
    frac_width f cap k := min(w*f, cap); nmov := number of movable cells. *)
@@ -201,3 +202,242 @@ Print Assumptions c18_factor_area_bound.
 Print Assumptions c18_expansion_is_max.
 Print Assumptions c18_expansion_throws.
 Print Assumptions c18_row_area.
+
+(* ============================================================ floating point (binary64 / binary32, Flocq)
+   Model: ExpandFloat.v -- the same four functions with every C++ double / float operation replaced by the
+   correctly rounded IEEE-754 operation of Flocq (round to nearest even), conversions to int / long long =
+   truncation (Btrunc) into ideal integers.  These theorems are about the COMPUTED widths and factors.
+   They rest on the axioms of the standard library's classical real numbers (Flocq's specification is
+   stated over R): ClassicalDedekindReals.sig_forall_dec, ClassicalDedekindReals.sig_not_dec,
+   FunctionalExtensionality.functional_extensionality_dep, Classical_Prop.classic -- exactly what Print
+   Assumptions lists for each c18f_* theorem below; the c18_* theorems above stay closed.
+   Domain everywhere: widths and heights in [0, 2^31) (int_sizes), areas below 2^63 (no long long overflow),
+   finite arguments. *)
+From Coq Require Import Reals Lia.
+From Flocq Require Import Core BinarySingleNaN.
+Require Import CV.SpreadFloat CV.ExpandFloat CV.ExpandFloatBase CV.ExpandFloatProofs CV.ExpandFloatFactor
+               CV.ExpandFloatCongestion CV.ExpandFloatCarry CV.ExpandFloatArea CV.ExpandFloatTotal
+               CV.ExpandFloatLower.
+Local Close Scope Q_scope.
+Local Open Scope R_scope.
+
+(* [F] only widths of movable cells change (binary64 model of expandCellsToDensity) *)
+Theorem c18f_density_only_movable_widths : forall t m mew c c' b,
+  expand_to_density_f_br t m mew c = Some (c', b) ->
+  e_rows c' = e_rows c /\ Forall2 frame (e_cells c) (e_cells c') /\ (b <> BrExpand -> c' = c).
+Proof. exact to_density_f_frame. Qed.
+
+(* [F] never narrower, for the computed widths: finite target <= 1; whenever the computed cap is not below the
+   width in the C++ comparison (!(cap < w), which includes a NaN cap), the new width is >= the old one.
+   Rounding cannot produce oldWidth - 1: the computed factor is >= 1 (monotone rounding of a quotient > 1),
+   w * factor rounds to >= w, missingArea never becomes negative *)
+Theorem c18f_density_never_narrower : forall (t m mew : f64) c c' b,
+  is_finite t = true -> B2R t <= 1 -> int_sizes (e_cells c) ->
+  (movable_area (e_cells c) < 2 ^ 63)%Z -> (row_placement_area_f m c < 2 ^ 63)%Z ->
+  expand_to_density_f_br t m mew c = Some (c', b) ->
+  Forall2 (fun k k' => Bltb (cap_f mew c) (d_of_Z (e_w k)) = false -> (e_w k <= e_w k')%Z)
+          (e_cells c) (e_cells c').
+Proof. exact to_density_f_wider. Qed.
+
+(* [F] the statement's hypothesis over the reals implies the computed one: maxRowWidth * maxExpandedWidth (exact
+   product) not below w  =>  the computed cap is not below w *)
+Theorem c18f_cap_not_below : forall (mew : f64) c (w : Z), is_finite mew = true ->
+  Rabs (B2R mew) <= bpow radix2 900 ->
+  (0 <= w < 2 ^ 31)%Z -> (0 <= max_row_width (e_rows c) < 2 ^ 31)%Z ->
+  IZR w <= IZR (max_row_width (e_rows c)) * B2R mew ->
+  Bltb (cap_f mew c) (d_of_Z w) = false.
+Proof. exact cap_f_not_below. Qed.
+
+(* [F] (int)fracW is defined (finite, in [0, 2^31)) for every processed cell when the cap is finite in [0, 2^31),
+   e.g. 0 <= maxExpandedWidth <= 1 *)
+Theorem c18f_density_conversion_defined : forall (f cap : f64) k, is_finite f = true ->
+  1 <= B2R f <= bpow radix2 63 -> (0 <= e_w k < 2 ^ 31)%Z ->
+  is_finite cap = true -> 0 <= B2R cap < bpow radix2 31 -> fw_ok f cap k.
+Proof. exact fw_ok_of_cap. Qed.
+
+(* [F] carry invariant, one iteration, in binary64: fracW - newW and every missingArea - h are exact, the two
+   remaining roundings cost at most 2^-20 area units; 0 <= missing' < h *)
+Theorem c18f_carry_invariant_step : forall f cap k (m : f64) k' m',
+  processed k = true -> (e_h k < 2 ^ 31)%Z ->
+  is_finite m = true -> 0 <= B2R m <= bpow radix2 31 -> fw_ok f cap k ->
+  expand_cell_f f cap k m = Some (k', m') ->
+  k' = set_w k (e_w k') /\ is_finite m' = true /\ 0 <= B2R m' < IZR (e_h k) /\
+  Rabs (IZR (e_h k) * IZR (e_w k') + B2R m' - (IZR (e_h k) * B2R (frac_width_f f cap k) + B2R m))
+    <= bpow radix2 (-20).
+Proof. exact expand_cell_f_spec. Qed.
+
+(* [F] carry invariant over the whole loop: the accumulated floating-point error of movable area + missing is
+   at most 2^-20 per processed cell (areas are accumulated in long long, only missingArea is a double);
+   H = any bound of the heights *)
+Theorem c18f_carry_invariant : forall f cap (H : Z), (H <= 2 ^ 31)%Z -> forall cells (m : f64) cells' m',
+  int_sizes cells -> Forall (fw_ok f cap) cells -> Forall (fun k => (e_h k <= H)%Z) cells ->
+  is_finite m = true -> 0 <= B2R m < IZR H ->
+  expand_cells_f f cap cells m = Some (cells', m') ->
+  is_finite m' = true /\ 0 <= B2R m' < IZR H /\
+  Rabs (IZR (movable_area cells') + B2R m' - (rsum (map (frac_area_f f cap) cells) + B2R m))
+    <= INR (nproc cells) * bpow radix2 (-20).
+Proof. exact expand_cells_f_inv. Qed.
+
+(* [F] utilisation: movable area after <= target * available * (1 + 2^-50) + 2^-20 per processed cell
+   (exact theorem c18_density_area_bound: <= target * available) *)
+Theorem c18f_density_area_bound : forall (t m mew : f64) c c',
+  is_finite t = true -> B2R t <= 1 -> int_sizes (e_cells c) ->
+  (movable_area (e_cells c) < 2 ^ 63)%Z -> (row_placement_area_f m c < 2 ^ 63)%Z ->
+  is_finite (cap_f mew c) = true -> 0 <= B2R (cap_f mew c) < bpow radix2 31 ->
+  expand_to_density_f_br t m mew c = Some (c', BrExpand) ->
+  IZR (movable_area (e_cells c')) <=
+    B2R t * IZR (row_placement_area_f m c) * (1 + bpow radix2 (-50)) +
+    INR (nproc (e_cells c)) * bpow radix2 (-20).
+Proof. exact to_density_f_area. Qed.
+
+(* [F] "within one cell height" for the computed widths: when no cap binds (fracW > maxCellWidth false for every
+   processed cell), area after > target * available * (1 - 2^-50) - H - 2^-20 per processed cell, H any bound
+   of the heights (exact theorem: > target * available - height of the last processed cell) *)
+Theorem c18f_density_area_lower : forall (t m mew : f64) c c' (H : Z),
+  is_finite t = true -> B2R t <= 1 -> int_sizes (e_cells c) ->
+  (movable_area (e_cells c) < 2 ^ 63)%Z -> (row_placement_area_f m c < 2 ^ 63)%Z ->
+  is_finite (cap_f mew c) = true -> 0 <= B2R (cap_f mew c) < bpow radix2 31 ->
+  (1 <= H <= 2 ^ 31)%Z -> Forall (fun k => (e_h k <= H)%Z) (e_cells c) ->
+  expand_to_density_f_br t m mew c = Some (c', BrExpand) ->
+  no_cap_binds_f (ddiv t (density_f (movable_area (e_cells c)) (row_placement_area_f m c))) (cap_f mew c) (e_cells c) ->
+  B2R t * IZR (row_placement_area_f m c) * (1 - bpow radix2 (-50)) - IZR H
+    - INR (nproc (e_cells c)) * bpow radix2 (-20) < IZR (movable_area (e_cells c')).
+Proof. exact to_density_f_area_lower. Qed.
+
+(* [F] on the same domain the binary64 model always returns: the while loop terminates (every subtraction
+   missingArea - h is exact, so the fuel floor(missingArea / h) of the model suffices) *)
+Theorem c18f_density_total : forall (t m mew : f64) c,
+  is_finite t = true -> B2R t <= 1 -> int_sizes (e_cells c) ->
+  (movable_area (e_cells c) < 2 ^ 63)%Z -> (row_placement_area_f m c < 2 ^ 63)%Z ->
+  is_finite (cap_f mew c) = true -> 0 <= B2R (cap_f mew c) < bpow radix2 31 ->
+  expand_to_density_f_br t m mew c <> None.
+Proof. exact to_density_f_total. Qed.
+
+(* [F] expandCellsByFactor, binary64/binary32: only widths of movable cells change *)
+Theorem c18f_factor_only_movable_widths : forall es maxD m c c' r b,
+  expand_by_factor_f_br es maxD m c = Some (c', r, b) ->
+  e_rows c' = e_rows c /\ Forall2 frame (e_cells c) (e_cells c') /\ (b <> BrExpand -> c' = c /\ r = done).
+Proof. exact by_factor_f_frame. Qed.
+
+(* [F] finite factors in [1, 2^100]: no movable cell becomes narrower -- the adjusted factor
+   (float)(1.0 + (e - 1.0) * ratio) is still >= 1 because 0 <= ratio <= 1 after rounding *)
+Theorem c18f_factor_never_narrower : forall es maxD m c c' r b,
+  int_sizes (e_cells c) -> Forall (factor_ok (bpow radix2 100)) es -> is_finite maxD = true ->
+  (movable_area (e_cells c) < 2 ^ 63)%Z -> (row_placement_area_f m c < 2 ^ 63)%Z ->
+  (Z.abs (expanded_area_f (e_cells c) es 0) < 2 ^ 63)%Z ->
+  expand_by_factor_f_br es maxD m c = Some (c', r, b) ->
+  Forall2 (fun k k' => (e_w k <= e_w k')%Z) (e_cells c) (e_cells c').
+Proof. exact by_factor_f_wider. Qed.
+
+(* [F] the factor of a congested region (c > 1.0f) computed in binary32/binary64 is finite and >= 1 + 2^-23 *)
+Theorem c18f_region_factor_above_one : forall fp pf c : f32,
+  is_finite fp = true -> is_finite pf = true -> is_finite c = true ->
+  0 <= B2R fp <= bpow radix2 40 -> 1 <= B2R pf <= bpow radix2 40 -> 1 < B2R c <= bpow radix2 40 ->
+  is_finite (region_factor_f fp pf c) = true /\ 1 + bpow radix2 (-23) <= B2R (region_factor_f fp pf c).
+Proof. exact region_factor_f_gt1. Qed.
+
+(* [F] computeCellExpansion in binary32: 1.0f for fixed cells and cells that intersect no congested region,
+   otherwise the (bitwise) factor of an intersecting congested region that is >= all the others *)
+Theorem c18f_expansion_is_max : forall cmap fp pf c l, ce_dom cmap fp pf ->
+  compute_expansion_f cmap fp pf c = Some l ->
+  0 <= B2R fp /\ 1 <= B2R pf /\ Forall2 (expansion_spec_f cmap fp pf) (e_cells c) l.
+Proof. exact expansion_f_is_max. Qed.
+
+Theorem c18f_expansion_throws : forall cmap fp pf c, is_finite fp = true -> is_finite pf = true ->
+  (compute_expansion_f cmap fp pf c = None <-> (B2R fp < 0 \/ B2R pf < 1)).
+Proof. exact expansion_f_throws. Qed.
+
+(* ------------------------------------------------------------ non-vacuity and range witnesses (floating point) *)
+(* ex_c with target 0.75, margin 0.5, maxExpandedWidth 1.0: the hypotheses of c18f_density_never_narrower /
+   c18f_density_area_bound hold and the computed widths are those of the exact model *)
+Example c18f_density_nonvacuous :
+  let t := d_of_me 3 (-2) in let m := d_of_me 1 (-1) in
+  is_finite t = true /\ B2R t <= 1 /\ int_sizes (e_cells ex_c) /\ row_placement_area_f m ex_c = 500%Z /\
+  is_finite (cap_f done ex_c) = true /\ 0 <= B2R (cap_f done ex_c) < bpow radix2 31 /\
+  exists c', expand_to_density_f_br t m done ex_c = Some (c', BrExpand) /\
+             map e_w (e_cells c') = [22; 7; 10; 0]%Z.
+Proof.
+  cbv zeta. split; [vm_compute; reflexivity|]. split; [apply B2R_le_1; vm_compute; reflexivity|].
+  split; [unfold int_sizes; repeat constructor; simpl; lia|]. split; [vm_compute; reflexivity|].
+  split; [vm_compute; reflexivity|].
+  split; [change (bpow radix2 31) with (IZR (2 ^ 31));
+          apply B2R_between; [vm_compute; reflexivity|vm_compute; reflexivity|vm_compute; reflexivity..]|].
+  eexists. split; vm_compute; reflexivity.
+Qed.
+
+(* the additional hypotheses of c18f_density_area_lower on the same instance: no cap binds, heights <= 20 *)
+Example c18f_density_lower_nonvacuous :
+  let t := d_of_me 3 (-2) in let m := d_of_me 1 (-1) in
+  no_cap_binds_f (ddiv t (density_f (movable_area (e_cells ex_c)) (row_placement_area_f m ex_c)))
+                 (cap_f done ex_c) (e_cells ex_c) /\
+  Forall (fun k => (e_h k <= 20)%Z) (e_cells ex_c).
+Proof.
+  cbv zeta. split.
+  - unfold no_cap_binds_f. repeat (apply Forall_cons; [intros _; vm_compute; reflexivity|]). apply Forall_nil.
+  - repeat constructor; simpl; lia.
+Qed.
+
+(* float factors 1.5, 2, (fixed) 5, 1 with maxDensity 0.75, margin 0.5 *)
+Example c18f_factor_nonvacuous :
+  let es := [f_of_me 3 (-1); f_of_Z 2; f_of_Z 5; fone] in
+  Forall (factor_ok (bpow radix2 100)) es /\
+  option_map (fun x => (map e_w (e_cells (fst (fst x))), snd x))
+             (expand_by_factor_f_br es (d_of_me 3 (-2)) (d_of_me 1 (-1)) ex_c)
+  = Some ([21; 8; 10; 0]%Z, BrExpand).
+Proof.
+  cbv zeta. split; [repeat (apply Forall_cons; [apply factor_ok_small; vm_compute; reflexivity|]); apply Forall_nil|].
+  vm_compute. reflexivity.
+Qed.
+
+(* overlapping congested regions 1.25 and 1.5 over the first cell, an uncongested one (0.75), a fixed cell:
+   factors 2.125, 2.125, 1, 1 (bit for bit) *)
+Example c18f_expansion_nonvacuous :
+  option_map (map B2SF) (compute_expansion_f
+    [({| minX := 0; maxX := 10; minY := 0; maxY := 10 |}, f_of_me 5 (-2));
+     ({| minX := 5; maxX := 50; minY := 5; maxY := 30 |}, f_of_me 3 (-1));
+     ({| minX := -10; maxX := 100; minY := -10; maxY := 100 |}, f_of_me 3 (-2))] (f_of_me 1 (-3)) (f_of_Z 2) ex_c)
+  = Some (map B2SF [f_of_me 17 (-3); f_of_me 17 (-3); fone; fone]).
+Proof. vm_compute. reflexivity. Qed.
+
+(* RANGE WITNESSES (just outside the bound of c18f_density_conversion_defined): cap = 4 * 2^30 = 2^32 is not
+   below the width 2^29, the factor is 8, fracW = 2^32: (int)fracW is undefined in C++ (the model's ideal width
+   2^32 does not fit an int; the compiled code returns the width 0: narrower).  With maxExpandedWidth = 1
+   (cap 2^30) the same circuit stays in range. *)
+Example c18f_density_conversion_out_of_range :
+  int_sizes (e_cells wit_ed) /\ Bltb (cap_f (d_of_me 4 0) wit_ed) (d_of_Z 536870912) = false /\
+  (exists c', expand_to_density_f_br (d_of_me 1 (-1)) (d_of_me 0 0) (d_of_me 4 0) wit_ed = Some (c', BrExpand) /\
+              map e_w (e_cells c') = [4294967296]%Z /\ ~ in_int 4294967296) /\
+  (exists c', expand_to_density_f_br (d_of_me 1 (-1)) (d_of_me 0 0) done wit_ed = Some (c', BrExpand) /\
+              map e_w (e_cells c') = [1073741824]%Z /\ in_int 1073741824).
+Proof.
+  split; [unfold int_sizes; repeat constructor; simpl; lia|]. split; [vm_compute; reflexivity|]. split.
+  - eexists. split; [vm_compute; reflexivity|]. split; [vm_compute; reflexivity|]. unfold in_int. lia.
+  - eexists. split; [vm_compute; reflexivity|]. split; [vm_compute; reflexivity|]. unfold in_int. lia.
+Qed.
+
+(* expandCellsByFactor: a cell 2^20 wide with the factor 4096 (utilisation after: 1/4, no adjustment): the product
+   2^32 does not fit an int (the compiled code stores -2147483648); with the factor 2047 it fits *)
+Example c18f_factor_conversion_out_of_range :
+  let widths es := option_map (fun x => (map e_w (e_cells (fst (fst x))), snd x))
+                              (expand_by_factor_f_br es done (d_of_me 0 0) wit_ef) in
+  widths [f_of_Z 4096] = Some ([4294967296]%Z, BrExpand) /\ ~ in_int 4294967296 /\
+  widths [f_of_Z 2047] = Some ([2146435072]%Z, BrExpand) /\ in_int 2146435072.
+Proof.
+  cbv zeta. split; [vm_compute; reflexivity|]. split; [unfold in_int; lia|].
+  split; [vm_compute; reflexivity|]. unfold in_int. lia.
+Qed.
+
+Print Assumptions c18f_density_only_movable_widths.
+Print Assumptions c18f_density_never_narrower.
+Print Assumptions c18f_cap_not_below.
+Print Assumptions c18f_density_conversion_defined.
+Print Assumptions c18f_carry_invariant_step.
+Print Assumptions c18f_carry_invariant.
+Print Assumptions c18f_density_area_bound.
+Print Assumptions c18f_density_area_lower.
+Print Assumptions c18f_density_total.
+Print Assumptions c18f_factor_only_movable_widths.
+Print Assumptions c18f_factor_never_narrower.
+Print Assumptions c18f_region_factor_above_one.
+Print Assumptions c18f_expansion_is_max.
+Print Assumptions c18f_expansion_throws.
